@@ -137,10 +137,21 @@ class Summaries:
                             for i in impls:
                                 if i in model.fns:
                                     self.edges[f.q].add(i)
-            # closures created in f may run in f (or be stored; conservatively: f -> closure)
+            # closures created in f may run in f (or be stored; conservatively: f -> closure);
+            # an async block that is handed to a spawn runs later, on another task: no synchronous edge
+            spawned = set()
+            pa_ = Prov(model, "alias")
+            for c in f.calls():
+                if re.search(r"(^|::)spawn(_blocking|_local)?$", c.q) and ("tokio" in c.q):
+                    for a in c.args:
+                        r = pa_.root(f, a)
+                        if r[0] == "closure":
+                            spawned.add(r[1])
             for b in f.blocks:
                 for s in b["s"]:
                     if s[0] == "A" and s[2][0] in ("closure", "coroutine", "coroutine_closure") and s[2][1] in model.fns:
+                        if s[2][1] in spawned:
+                            continue
                         self.edges[f.q].add(s[2][1])
         self._reach = {}
         self.may_write = self.reaches(STATE_WRITERS)
@@ -440,7 +451,7 @@ class TS:
                 # facts of call blocks that do not dominate the next block are dead (their single-def
                 # temporaries cannot be read there): dropping them keeps the configuration space small
                 ds = frames[-1].fn.dom_set(nb)
-                envt2 = tuple(sorted(((k_, v_) for k_, v_ in env.items() if k_ == "ek" or isinstance(k_, tuple) or k_ in ds), key=repr))
+                envt2 = tuple(sorted(((k_, v_) for k_, v_ in env.items() if k_ in ("ek", "rv") or isinstance(k_, tuple) or k_ in ds), key=repr))
                 stack.append(((frames, nb, s, cok, mon, envt2), key, ev))
 
             def report(payload, ev=None):
@@ -464,6 +475,13 @@ class TS:
             if ek is not None:
                 env = dict(env)
                 env["ek"] = ek
+                # constant boolean return value (correlates e.g. is_ready()'s `false` with the
+                # write it performed on that path)
+                env.pop("rv", None)
+                for st in fn.blocks[b]["s"]:
+                    if st[0] == "A" and st[1][0] == 0 and not st[1][1] and st[2][0] == "use" and st[2][1][0] == "k" \
+                            and st[2][1][1].get("ty") == "bool" and "int" in st[2][1][1]:
+                        env["rv"] = bool(int(st[2][1][1]["int"]))
             t = fn.blocks[b]["t"]
             k = t[0]
             if k == "goto":
@@ -482,7 +500,9 @@ class TS:
                         report(p, ("EXIT", kind, s))
                 else:
                     cenv = dict(fr.saved)
-                    if kind in ("OK", "ERR_NEW", "ERR_PROP"):
+                    if "rv" in env:
+                        cenv[fr.callblk] = ("B", env["rv"])
+                    if kind in ("OK", "ERR_NEW", "ERR_PROP") and fn.returns_result():
                         cenv[fr.callblk] = ("RES", "Ok" if kind == "OK" else "Err")
                     elif fn.returns_result() and fn.q not in self.sm.may_fail():
                         cenv[fr.callblk] = ("RES", "Ok")  # tail call / moved result of an infallible function
